@@ -35,7 +35,7 @@ try:
     out = os.path.join("/verif/benign", rid)
     os.makedirs(out, exist_ok=True)
     for f in ("patch.diff", "README.md"):
-        if os.path.exists(os.path.join(src, f)):
+        if os.path.exists(os.path.join(src, f)) and os.path.abspath(os.path.join(src, f)) != os.path.abspath(os.path.join(out, f)):
             shutil.copy(os.path.join(src, f), os.path.join(out, f))
     json.dump(meta, open(os.path.join(out, "meta.json"), "w"), indent=1)
     ok = meta["builds"] and meta["tests_pass"]
